@@ -22,6 +22,9 @@ pub struct PacketConn<RW: Read + Write> {
     seq: u8,
     // the previous packet of the current message was maximal (0xFFFFFF bytes)
     continued: bool,
+    // set once the transport has reported a write or flush error; everything after that fails
+    // fast, so an error swallowed where it cannot be returned (Drop) is still reported
+    failed: Option<io::ErrorKind>,
 }
 
 impl<W: Read + Write> Write for PacketConn<W> {
@@ -40,8 +43,13 @@ impl<W: Read + Write> Write for PacketConn<W> {
     }
 
     fn flush(&mut self) -> io::Result<()> {
+        self.check_failed()?;
         self.maybe_end_packet()?;
-        self.rw.flush()
+        let res = self.rw.flush();
+        if let Err(ref e) = res {
+            self.failed = Some(e.kind());
+        }
+        res
     }
 }
 
@@ -58,19 +66,36 @@ impl<RW: Read + Write> PacketConn<RW> {
             to_write: vec![0, 0, 0, 0],
             seq: 0,
             continued: false,
+            failed: None,
             rw,
         }
     }
 }
 
 impl<W: Read + Write> PacketConn<W> {
+    /// Has the transport already reported a write or flush error?
+    pub(crate) fn has_failed(&self) -> bool {
+        self.failed.is_some()
+    }
+
+    fn check_failed(&self) -> io::Result<()> {
+        match self.failed {
+            Some(kind) => Err(io::Error::new(kind, "connection has already failed")),
+            None => Ok(()),
+        }
+    }
+
     fn write_packet(&mut self) -> io::Result<()> {
+        self.check_failed()?;
         let len = self.to_write.len() - 4;
         LittleEndian::write_u24(&mut self.to_write[0..3], len as u32);
         self.to_write[3] = self.seq;
         self.seq = self.seq.wrapping_add(1);
 
-        self.rw.write_all(&self.to_write[..])?;
+        if let Err(e) = self.rw.write_all(&self.to_write[..]) {
+            self.failed = Some(e.kind());
+            return Err(e);
+        }
         self.to_write.truncate(4); // back to just header
         Ok(())
     }
